@@ -500,6 +500,7 @@ struct PlanT {
     int nthreads = 2, strategy = simrt::S_RANDOM, rng = R_DEFAULT;
     unsigned pct_depth = 2;
     bool preinit = false; // main calls sodium_init before the threads start (the "after initialisation" clause on its own)
+    std::vector<std::pair<uint64_t, int>> sched; // strategy "explicit": deviations (decision index, thread) from run-to-completion order
     std::vector<Op> ops;
 };
 
@@ -585,6 +586,7 @@ Outcome run_plan(const PlanT &p, int strategy, const std::vector<int> &seq_order
     RT.mark = ENV.in_init;
     RT.seq_order = seq_order;
     RT.detect_races = detect;
+    RT.trace_in = strategy == simrt::S_TRACE ? p.sched : std::vector<std::pair<uint64_t, int>>();
     simrt::run_threads(p.nthreads, thread_body);
     out.pagesize_queries = ENV.init_pagesize_queries; out.init_entropy_calls = ENV.init_entropy_calls; out.init_entropy_bytes = ENV.init_entropy_bytes;
     out.init_stirs = ENV.init_stirs; out.init_src_bytes = ENV.init_src_bytes;
@@ -630,7 +632,7 @@ struct C19 {
         p.content_seed = mix64(rs, 0xc19); p.sched_seed = mix64(rs, 0x5ced);
         unsigned c = (unsigned) k.below(10);
         p.nthreads = c < 4 ? 2 : c < 6 ? 3 : c < 8 ? 4 : c < 9 ? (int) k.range(5, 8) : (int) k.range(9, 16);
-        p.strategy = (int) k.range(1, simrt::S_NSTRATEGIES - 1);
+        p.strategy = (int) k.range(1, simrt::S_COARSE);
         p.pct_depth = (unsigned) k.range(1, 4);
         unsigned rc = (unsigned) k.below(10);
         p.rng = rc < 6 ? R_DEFAULT : rc < 8 ? R_INTERNAL : R_SCRIPTED;
@@ -656,6 +658,11 @@ struct C19 {
         Json j = Json::object();
         j["knobs"] = p.pk; j["content_seed"] = p.content_seed; j["sched_seed"] = p.sched_seed; j["threads"] = p.nthreads;
         j["strategy"] = simrt::strategy_name[p.strategy]; j["pct_depth"] = p.pct_depth; j["rng"] = rng_name[p.rng]; j["preinit"] = p.preinit;
+        if (p.strategy == simrt::S_TRACE) {
+            Json sc = Json::array();
+            for (auto &d : p.sched) { Json e = Json::array(); e.push(d.first); e.push(d.second); sc.push(e); }
+            j["schedule_deviations"] = sc; // [decision index, thread]: everything else is run-to-completion in thread order
+        }
         Json ops = Json::array();
         for (auto &o : p.ops) { Json q = Json::object(); q["t"] = o.thread; q["op"] = OPS[(size_t) o.op % NOPS].name; ops.push(q); }
         j["ops"] = ops;
@@ -670,6 +677,7 @@ struct C19 {
         p.pct_depth = (unsigned) j.at("pct_depth").u64(2);
         for (int i = 0; i < 3; i++) if (j.at("rng").str() == rng_name[i]) p.rng = i;
         p.preinit = j.at("preinit").boolean();
+        for (auto &d : j.at("schedule_deviations").a) if (d.a.size() == 2) p.sched.push_back({d.a[0].u64(), (int) d.a[1].i64()});
         for (auto &q : j.at("ops").a) {
             Op o; o.thread = (int) q.at("t").i64();
             for (size_t k = 0; k < NOPS; k++) if (q.at("op").str() == OPS[k].name) o.op = (int) k;
@@ -793,17 +801,58 @@ struct C19 {
         return res;
     }
 
+    // execute the plan's scheduled run once in a throw-away child and return the schedule it took, as deviations
+    static bool capture_schedule(const Plan &p, std::vector<std::pair<uint64_t, int>> &out) {
+        int fd[2];
+        if (pipe(fd) != 0) return false;
+        fflush(stdout); fflush(stderr);
+        pid_t pid = fork();
+        if (pid == 0) {
+            close(fd[0]);
+            int devnull = open("/dev/null", O_WRONLY); if (devnull >= 0) dup2(devnull, 2);
+            proc_setup(p.pk);
+            std::vector<int> order;
+            for (int i = 0; i < p.nthreads; i++) order.push_back(i);
+            (void) run_plan(p, p.strategy, order, true);
+            std::string s;
+            for (auto &d : RT.recorded) s += std::to_string(d.first) + " " + std::to_string(d.second) + "\n";
+            size_t off = 0;
+            while (off < s.size()) { ssize_t w = write(fd[1], s.data() + off, s.size() - off); if (w <= 0) break; off += (size_t) w; }
+            _exit(0);
+        }
+        close(fd[1]);
+        std::string rs; char buf[4096];
+        for (;;) { ssize_t n = read(fd[0], buf, sizeof buf); if (n <= 0) break; rs.append(buf, (size_t) n); }
+        close(fd[0]);
+        int st = 0; waitpid(pid, &st, 0);
+        std::istringstream in(rs);
+        unsigned long long d; int t;
+        while (in >> d >> t) out.push_back({d, t});
+        return true;
+    }
+
     static std::vector<Plan> simplify(const Plan &p) {
         std::vector<Plan> out;
+        if (p.strategy != simrt::S_TRACE) {
+            // turn the seed-generated schedule into an explicit one, so that it can be reduced
+            Plan c = p;
+            if (capture_schedule(p, c.sched) && c.sched.size() < 20000) { c.strategy = simrt::S_TRACE; out.push_back(c); }
+        } else if (!p.sched.empty()) {
+            { Plan c = p; c.sched.clear(); out.push_back(c); } // plain run-to-completion order
+            size_t n = p.sched.size();
+            for (size_t parts = 2; parts <= 16 && parts <= n; parts *= 2)
+                for (size_t i = 0; i < parts; i++) { Plan c = p; c.sched.erase(c.sched.begin() + (long) (i * n / parts), c.sched.begin() + (long) ((i + 1) * n / parts)); out.push_back(c); }
+            if (n <= 24) for (size_t i = 0; i < n; i++) { Plan c = p; c.sched.erase(c.sched.begin() + (long) i); out.push_back(c); }
+        }
         if (p.nthreads > 2) {
             { Plan c = p; c.nthreads = 2; out.push_back(c); }
             { Plan c = p; c.nthreads = p.nthreads - 1; out.push_back(c); }
         }
-        if (p.strategy != simrt::S_COARSE) { Plan c = p; c.strategy = simrt::S_COARSE; out.push_back(c); }
+        if (p.strategy != simrt::S_COARSE && p.strategy != simrt::S_TRACE) { Plan c = p; c.strategy = simrt::S_COARSE; out.push_back(c); }
         if (p.strategy == simrt::S_PCT && p.pct_depth > 1) { Plan c = p; c.pct_depth--; out.push_back(c); }
         if (p.pk.at("cpu_disable").u64() != NO_RDRAND) { Plan c = p; c.pk["cpu_disable"] = (unsigned) NO_RDRAND; out.push_back(c); }
         if (p.rng != R_DEFAULT) { Plan c = p; c.rng = R_DEFAULT; out.push_back(c); }
-        if (p.sched_seed > 3) for (uint64_t s = 1; s <= 3; s++) { Plan c = p; c.sched_seed = s; out.push_back(c); }
+        if (p.strategy != simrt::S_TRACE && p.sched_seed > 3) for (uint64_t s = 1; s <= 3; s++) { Plan c = p; c.sched_seed = s; out.push_back(c); }
         return out;
     }
 
